@@ -1,4 +1,4 @@
-\* EXPECTED TO BE VIOLATED: the verdict is a function of the assignment (early-exit race with a stuck path)
+\* MUTANT (code before a19e257) - TLC MUST find a violation of NoLostCounterexampleStrict
 SPECIFICATION Spec
 CONSTANTS
   MinPaths = 1
@@ -16,4 +16,7 @@ CONSTANTS
   RecordHist = FALSE
   Canon = FALSE
   Coarse = FALSE
-INVARIANTS OrderIndependence
+  MutPrecedence = FALSE
+  MutNoCatch = TRUE
+  KilledMayRaise = FALSE
+INVARIANTS NoLostCounterexampleStrict
